@@ -1,15 +1,16 @@
 ------------------------- MODULE RouterLifecycleTrace -------------------------
-(* Trace validation for C10.  Events: reset | addh h pub | subscribed h | runcall | running |
+(* Trace validation for C10.  Events: reset | addh h pub | subscribed h ctx | runcall | running |
    runret k ok | rhcall i | rhret i ok | started h | stopcall h | stopret h | stopped h |
-   probe h ok | cancelrun | closedseen | quiesce      (stoppanic / stoppednil match no action) *)
+   probe h ok | cancelrun | closecall | closeret ok | closedseen | quiesce unstopped      (stoppanic / stoppednil match no action) *)
 EXTENDS RouterLifecycleAbs, TraceBase
 tvars == <<lvars, l>>
 TInit == LInit0 /\ LInit
 TReset == /\ Is("reset") /\ added' = << >> /\ subs' = << >> /\ atRun' = {} /\ runs' = 0 /\ runRet' = FALSE /\ started' = {}
-          /\ stopReq' = {} /\ stopped' = {} /\ ending' = FALSE /\ rhPend' = << >> /\ closedSeen' = FALSE /\ Adv
+          /\ stopReq' = {} /\ stopped' = {} /\ ending' = FALSE /\ rhPend' = << >> /\ closedSeen' = FALSE
+          /\ cancelled' = FALSE /\ ctxOf' = << >> /\ Adv
 TNext == \/ TReset
          \/ Is("addh") /\ AddHandler(Ev.h, Ev.pub) /\ Adv
-         \/ Is("subscribed") /\ Subscribed(Ev.h) /\ Adv
+         \/ Is("subscribed") /\ Subscribed(Ev.h, Ev.ctx) /\ Adv
          \/ Is("runcall") /\ RunCall /\ Adv
          \/ Is("running") /\ RunningSeen /\ Adv
          \/ Is("runret") /\ (IF Ev.k = 1 THEN RunRetFirst(Ev.ok) ELSE RunRetSecond(Ev.ok)) /\ Adv
@@ -21,7 +22,9 @@ TNext == \/ TReset
          \/ Is("stopped") /\ StoppedSeen(Ev.h) /\ Adv
          \/ Is("probe") /\ Probe(Ev.h, Ev.ok) /\ Adv
          \/ Is("cancelrun") /\ CancelRun /\ Adv
+         \/ Is("closecall") /\ CloseCall /\ Adv
+         \/ Is("closeret") /\ Ev.ok /\ UNCHANGED lvars /\ Adv
          \/ Is("closedseen") /\ ClosedSeen /\ Adv
-         \/ Is("quiesce") /\ QuiescentL /\ UNCHANGED lvars /\ Adv
+         \/ Is("quiesce") /\ QuiescentL(Ev.unstopped) /\ UNCHANGED lvars /\ Adv
 TSpec == TInit /\ [][TNext]_tvars
 =============================================================================
